@@ -78,6 +78,10 @@ func newAsmGens(full bool) asmGens {
 		rapid.StringMatching(`[a-z][a-z0-9]{0,4}`),
 		rapid.StringMatching(`[a-z][a-zA-Z0-9]{0,4}`),
 		rapid.SampledFrom([]string{"0", "1", "9", "10", "00", "01", "007", "1a", "a1", "aB", "11", "22", "x", "4294967295"}),
+		// numbers at the edges of decimal and binary widths
+		rapid.SampledFrom([]string{"10", "100", "1000", "10000", "100000", "1000000", "10000000", "100000000", "1000000000",
+			"99", "999", "9999", "99999", "999999", "9999999", "99999999", "999999999", "255", "256", "65535", "65536",
+			"16777215", "16777216", "2147483647", "2147483648", "4294967295"}),
 	}
 	if full {
 		syms = append(syms, rapid.StringMatching(`[a-zA-Z][a-zA-Z0-9_]{0,8}`), rapid.SampledFrom([]string{"LOAD", "Foo", "F", "HALT"}))
